@@ -108,6 +108,55 @@ fn run(a: &vhcore::Args) -> i32 {
             }
         }
     }
+    // Opcodes that define MORE than one register (SRW: the word and the "slot was set" flag) are
+    // the one place where "an instruction defines at most one register" is false; nothing in the
+    // generated corpus emits them (they need a contract context), so they get their own family:
+    // k values computed before `__state_load_word`, all read after it.
+    let mut multi_def_pkgs = 0u64;
+    {
+        let reqs: Vec<vh_comp::worker::Request> = [1usize, 2, 3, 5, 8, 12]
+            .iter()
+            .enumerate()
+            .map(|(i, k)| vh_comp::worker::Request {
+                id: i as u64,
+                name: format!("c08_srw_k{k}"),
+                src: multi_def_contract(*k),
+                extra_files: vec![],
+                with_std: true,
+                existing_dir: None,
+                builds: vec![chk("debug", false), chk("release", true)],
+            })
+            .collect();
+        for (r, req) in pool.run(&reqs).into_iter().zip(reqs.iter()) {
+            let resp = match r {
+                Ok(r) => r,
+                Err(e) => vhcore::machinery_failure(&format!("{}: {e}", req.name)),
+            };
+            multi_def_pkgs += 1;
+            for o in &resp.builds {
+                if !o.ok {
+                    vhcore::machinery_failure(&format!("{} [{}] does not build: {} {:?}", req.name, o.label, o.error, o.panic));
+                }
+                funcs += o.regalloc_stats.0;
+                pairs += o.regalloc_stats.1;
+                if let Some(first) = o.regalloc_reports.first() {
+                    rep.violation(
+                        &format!("C08|multi-def-opcode|{}|allocation-checker", o.label),
+                        &format!("{} [{}]: {} ({} reports)", req.name, o.label, first, o.regalloc_reports.len()),
+                        json!({"package_main_sw": req.src, "build": o.label}),
+                    );
+                }
+                if o.tests.is_empty() || o.tests.iter().any(|t| !t.passed) {
+                    rep.violation(
+                        &format!("C08|multi-def-opcode|{}|wrong-result", o.label),
+                        &format!("{} [{}]: a value live across `__state_load_word` did not survive (in-language assertion failed): {:?}", req.name, o.label, o.tests.iter().map(|t| (t.name.clone(), t.passed)).collect::<Vec<_>>()),
+                        json!({"package_main_sw": req.src, "build": o.label}),
+                    );
+                }
+            }
+        }
+    }
+    rep.set("multi_def_opcode_packages", multi_def_pkgs);
     if funcs == 0 || pairs == 0 {
         vhcore::machinery_failure("vacuous: the allocation checker (hook H3) did not run");
     }
@@ -126,4 +175,34 @@ fn run(a: &vhcore::Args) -> i32 {
     }
     rep.assume("trusted base of the checker: the per-opcode def/use/successor tables of sway-core's Op (an error there would also change VM results, which oracle (2) compares)");
     rep.finish()
+}
+
+/// A contract method with `k` values computed before a `__state_load_word` (SRW, two outputs) of a
+/// set slot and one of an unset slot, all used afterwards; the test asserts every value.
+fn multi_def_contract(k: usize) -> String {
+    let mut m = String::new();
+    m.push_str("contract;\n");
+    m.push_str("const KEY: b256 = 0x0000000000000000000000000000000000000000000000000000000000000007;\n");
+    m.push_str("const UNSET: b256 = 0x0000000000000000000000000000000000000000000000000000000000000009;\n");
+    m.push_str("abi A {\n    #[storage(read, write)]\n    fn run(a: u64, b: u64) -> u64;\n}\n");
+    m.push_str("impl A for Contract {\n    #[storage(read, write)]\n    fn run(a: u64, b: u64) -> u64 {\n");
+    m.push_str("        let slot = [1000u64, 0u64, 0u64, 0u64];\n        let _ = __state_store_quad(KEY, __addr_of(slot), 1);\n");
+    for i in 0..k {
+        m.push_str(&format!("        let x{i} = a * {} + b * {};\n", 3 + 2 * i, 5 + i));
+    }
+    m.push_str("        let v = __state_load_word(KEY);\n");
+    m.push_str("        let w = __state_load_word(UNSET);\n");
+    m.push_str("        let mut acc = v * 1000000 + w * 999;\n");
+    for i in 0..k {
+        m.push_str(&format!("        acc = acc * 7 + x{i};\n"));
+    }
+    m.push_str("        acc\n    }\n}\n");
+    // expected value for a = 1, b = 2
+    let mut acc: u64 = 1000 * 1_000_000;
+    for i in 0..k {
+        let x = (3 + 2 * i as u64) + 2 * (5 + i as u64);
+        acc = acc.wrapping_mul(7).wrapping_add(x);
+    }
+    m.push_str(&format!("#[test]\nfn t0() {{\n    let c = abi(A, CONTRACT_ID);\n    assert_eq(c.run(1, 2), {acc});\n}}\n"));
+    m
 }
